@@ -1,4 +1,5 @@
 import GcArena.Proofs.Quiet
+import GcArena.Proofs.Protocol
 /-!
 # C08 — Collection-phase protocol of the Arena API
 
@@ -149,22 +150,87 @@ theorem marked_iff (c : Ctx) :
     Arena.isMarked c = true ↔ (c.phase = .mark ∧ c.gray = [] ∧ c.grayAgain = [] ∧ c.rootNeedsTrace = false) := by
   simp [Arena.isMarked, Ctx.grayRemaining, List.isEmpty_iff, and_assoc]
 
-/-- Statements kept at full strength, proofs pending (they need the termination measure of the
-    driver loop, `Proofs/Termination`). -/
-def finish_marking_some_iff_statement : Prop :=
-  ∀ (c : Ctx) (root : List Slot), CInv c root [] →
-    (Arena.isMarked (c.doCollection root .stop .fullyMarked none).1 = true ↔ c.phase ≠ .sweep)
+/-- Every collection call returns or unwinds: the driver loop terminates from every state that
+    satisfies the invariant — for every `RunUntil`, `Stop`, pacing, debt and fault position. -/
+theorem every_call_terminates (c : Ctx) (root : List Slot) (h : CInv c root []) (ru : RunUntil) (stop : Stop)
+    (fault : TraceFault) : (c.doCollection root ru stop fault).2 ≠ .outOfFuel :=
+  doCollection_terminates h ru stop fault
 
-def finish_cycle_ends_sleeping_statement : Prop :=
-  ∀ (c : Ctx) (root : List Slot), CInv c root [] →
-    (c.doCollection root .stop .finishCycle none).1.phase = .sleep
+theorem getElem_mem_tail {α} (l : List α) (n : Nat) (h : n < l.length) (h0 : n ≠ 0) : l[n] ∈ l.tail := by
+  cases l with
+  | nil => simp at h
+  | cons a t =>
+    cases n with
+    | zero => exact absurd rfl h0
+    | succ m => simp only [List.getElem_cons_succ, List.tail_cons]; exact List.getElem_mem _
 
-def cycle_never_rewakes_statement : Prop :=
-  ∀ (c : Ctx) (root : List Slot) (ru : RunUntil) (f : TraceFault) (new : List Char), CInv c root [] →
-    (c.doCollection root ru .finishCycle f).1.steps = new ++ c.steps →
-    ∀ k : Nat, new.reverse[k]? = some 'Z' → ∀ j : Nat, k < j → new.reverse[j]? ≠ some 'W'
+/-- `finish_marking` returns `Some(MarkedArena)` exactly when the arena was not Sweeping — from
+    every state satisfying the invariant, whatever is left to mark. -/
+theorem finish_marking_some_iff (c : Ctx) (root : List Slot) (h : CInv c root []) :
+    Arena.isMarked (c.doCollection root .stop .fullyMarked none).1 = true ↔ c.phase ≠ .sweep := by
+  constructor
+  · intro hm hp
+    have := (mark_from_sweeping c root .stop none hp)
+    rw [this.1, this.2] at hm
+    cases hm
+  · intro hp
+    have hret := doCollection_returns h .stop .fullyMarked
+    unfold Ctx.doCollection at hret ⊢
+    simp only [show (RunUntil.stop = RunUntil.payDebt) = False from by simp, decide_false, Bool.false_and,
+      Bool.false_eq_true, if_false] at hret ⊢
+    exact collectLoop_fullyMarked _ c false 0 h hp hret
+
+/-- `finish_cycle` always ends Sleeping — from every phase. -/
+theorem finish_cycle_ends_sleeping (c : Ctx) (root : List Slot) (h : CInv c root []) :
+    (c.doCollection root .stop .finishCycle none).1.phase = .sleep := by
+  have hret := doCollection_returns h .stop .finishCycle
+  unfold Ctx.doCollection at hret ⊢
+  simp only [show (RunUntil.stop = RunUntil.payDebt) = False from by simp, decide_false, Bool.false_and,
+    Bool.false_eq_true, if_false] at hret ⊢
+  exact collectLoop_finishCycle _ c false 0 h hret
+
+/-- `cycle_debt` / `finish_cycle` never start a new cycle: in the step log one call appends
+    (oldest first), nothing — in particular no wake-up `'W'` — follows the `Sweep → Sleep`
+    switch `'Z'`.  For every `RunUntil`, every debt, every fault position. -/
+theorem cycle_never_rewakes (c : Ctx) (root : List Slot) (ru : RunUntil) (f : TraceFault)
+    (new : List Char) (h : CInv c root [])
+    (hnew : (c.doCollection root ru .finishCycle f).1.steps = new ++ c.steps)
+    (k : Nat) (hk : new.reverse[k]? = some 'Z') (j : Nat) (hj : k < j) : new.reverse[j]? ≠ some 'W' := by
+  have key : ∃ new', (c.doCollection root ru .finishCycle f).1.steps = new' ++ c.steps ∧
+      ∀ ch ∈ new'.tail, ch ≠ 'Z' := by
+    unfold Ctx.doCollection
+    split
+    · exact ⟨[], rfl, by simp⟩
+    · exact collectLoop_finishCycle_log _ c false 0 h
+  obtain ⟨new', e, hz⟩ := key
+  have hnn : new = new' := List.append_cancel_right (hnew.symm.trans e)
+  subst hnn
+  have hklt : k < new.length := by
+    have := (List.getElem?_eq_some_iff.mp hk).1
+    simpa using this
+  have hkeq : new[new.length - 1 - k]'(by omega) = 'Z' := by
+    have := (List.getElem?_eq_some_iff.mp hk).2
+    rw [List.getElem_reverse] at this
+    exact this
+  have hlast : new.length - 1 - k = 0 := by
+    by_cases h0 : new.length - 1 - k = 0
+    · exact h0
+    · exfalso
+      have hmem : new[new.length - 1 - k]'(by omega) ∈ new.tail :=
+        getElem_mem_tail new _ (by omega) h0
+      exact hz _ hmem hkeq
+  have hjge : new.reverse.length ≤ j := by simp; omega
+  rw [List.getElem?_eq_none hjge]
+  simp
 
 /-! ### Non-vacuity -/
+
+/-- A state with work left in every queue satisfies the hypotheses of the three loop theorems. -/
+example : CInv ((Arena.new 1).run [.enter .mutate, .alloc true [none], .leave]).ctx
+    ((Arena.new 1).run [.enter .mutate, .alloc true [none], .leave]).root [] := by
+  have h := inv_run 1 [.enter .mutate, .alloc true [none], .leave] (by decide)
+  have := h.cinv
+  rwa [h.cbTemps (by decide)] at this
 
 example : Arena.isMarked ((Arena.new 1).run
     [.collect .finishMarking .drop none (some [.wake, .markStep none, .markBreak])]).ctx = true := by decide
